@@ -21,6 +21,7 @@ inductive Waker where
 inductive Body where
   | user (op : Nat)
   | take (f : Nat)
+  | free (q : Nat)      -- the closure of `Desync::drop`: frees the boxed value
   deriving DecidableEq, Repr, Hashable, Inhabited
 
 /-- What kind of job sits in a queue. `op` is the API-level operation the job carries. -/
@@ -31,6 +32,8 @@ inductive JobKind where
   | erasedBg (owner : Nat) (body : Body)      -- sync_background's lifetime-erased job
   | fut (op : Nat) (gate : Option Nat) (res : Nat)   -- future_desync: begin; await gate; end; signal res
   | after (op : Nat) (gate : Nat) (res : Nat)        -- after: await gate; begin; end; signal res
+  | slot (u : Nat) (res : Nat)                       -- future_sync's slot job: send queue_ready; await task_finished; signal res
+  | susp (op : Nat) (gate : Nat) (fs : Nat) (res : Nat)  -- suspend: signal fs (resumer handed out); await resume (gate); signal res
   deriving DecidableEq, Repr, Hashable, Inhabited
 
 inductive Phase where
@@ -79,11 +82,42 @@ structure PThr where
   exited : Bool
   deriving DecidableEq, Repr, Hashable, Inhabited
 
+/-- How the result of `SchedulerFuture::poll` is consumed by the polling activity. -/
+inductive Mode where
+  | await                 -- block_on: poll again whenever woken, return when Ready
+  | sfQueue (u : Nat)     -- polled by SyncFuture `u` in state WaitingForQueue
+  | sfSched (u : Nat)     -- polled by SyncFuture `u` in state WaitingForScheduler
+  deriving DecidableEq, Repr, Hashable, Inhabited
+
+inductive SfStage where
+  | waitingForQueue | waitingForFuture | waitingForScheduler | completed
+  deriving DecidableEq, Repr, Hashable, Inhabited
+
+/-- A `SyncFuture` (the value returned by future_sync) with its two oneshot channels. -/
+structure SyncFut where
+  f : Nat                       -- its scheduler future
+  q : Nat
+  op : Nat                      -- the user operation
+  gate : Option Nat
+  stage : SfStage
+  readySent : Bool              -- queue_ready: value sent by the slot job
+  readyWaker : Option Waker     -- waker registered on the queue_ready receiver
+  doneSent : Bool               -- task_finished: value sent or sender dropped
+  doneWaker : Option Waker      -- waker registered by the slot job on the done receiver
+  userBegun : Bool
+  userEnded : Bool
+  userReg : Option Waker        -- waker the user future registered with its gate
+  deriving DecidableEq, Repr, Hashable, Inhabited
+
 /-- API calls (environment labels). -/
 inductive Call where
   | desync (q : Nat) | sync (q : Nat) | trySync (q : Nat)
   | fdesync (q : Nat) (gate : Option Nat) | after (q : Nat) (gate : Nat)
   | await (op : Nat) | syncf (op : Nat) | dropf (op : Nat)    -- on the future returned by operation `op`
+  | pollOnce (op : Nat)
+  | fsync (q : Nat) (gate : Option Nat)
+  | suspend (q : Nat) | resume (op : Nat)
+  | dropObj (q : Nat)
   | openGate (g : Nat)
   | setMax (n : Nat) | despawn
   deriving DecidableEq, Repr, Hashable, Inhabited
@@ -185,6 +219,18 @@ inductive Pc where
   | pfPoll (f : Nat)
   | pfPollRel (f : Nat) (next : Pc)
   | pfBlocked (f : Nat)                    -- returned Pending: task waits for its waker
+  | pollReady (f : Nat)                    -- SchedulerFuture::poll returns Ready: what the polling activity does with it
+  | pollPending (f : Nat)                  -- ... returns Pending
+  | sfPoll (u : Nat)                       -- SyncFuture::poll entry
+  | sfRecv (u : Nat)                       -- poll the queue_ready receiver
+  | sfUser (u : Nat)                       -- poll the user future
+  | sfFinish (u : Nat)                     -- user future completed: task_finished.send
+  | sfBlocked (u : Nat)
+  | sfDrop (u : Nat)                       -- the SyncFuture is dropped: user future first ...
+  | sfDropDone (u : Nat)                   -- ... then the completion sender
+  | resumeSend (op : Nat) (k : Pc)         -- QueueResumer::resume / drop: send on the resume channel of suspend `op`
+  | suspSignal (j : Nat) (c : Ctx) (k : Pc)   -- suspend job: signal(finished_suspending)
+  | suspSigDrop (j : Nat) (c : Ctx) (k : Pc)
   | dqCheck (f : Nat) (q : Nat)
   | dqDequeue (f : Nat) (q : Nat)
   | dqRequeue (f : Nat) (j : Nat) (l : Nat) (q : Nat)
@@ -213,6 +259,8 @@ structure Act where
   child : Option Nat        -- live nested call (this activity's body is waiting for it)
   woken : Bool              -- task waker fired (block_on) / condvar notified / park token, per use
   result : Option Nat       -- returned value tag, for the harness `ret` event
+  mode : Mode               -- how this activity consumes SchedulerFuture::poll results
+  once : Bool               -- poll once and return to the harness even if Pending (no executor loop)
   deriving DecidableEq, Repr, Hashable, Inhabited
 
 structure State where
@@ -231,6 +279,9 @@ structure State where
   readyLock : List (Nat × Nat)              -- (waiter, holder) pairs: who holds a sync caller's `ready` mutex
   ready : List Nat                          -- sync callers whose `ready` flag is set (their erased job was dropped)
   opFut : List (Nat × Nat)                  -- operation id -> the SchedulerFuture it returned
+  opSf : List (Nat × Nat)                   -- operation id -> the SyncFuture it returned
+  sfs : List SyncFut
+  dropped : List Nat                        -- queues whose Desync has been dropped
   parkToken : List Nat                      -- threads with an unpark token
   taskWoken : List Nat                      -- threads whose block_on waker has fired since they last went to sleep
   acts : List Act
@@ -258,8 +309,9 @@ inductive Obs where
   | notifyAll (a : Nat)
   | taskWake (t : Nat)           -- the block_on waker of thread `t` is fired
   | gateSend (g : Nat)           -- harness: one oneshot send of gate g
+  | resumeSend (op : Nat)        -- harness: the resumer of suspend `op` is used or dropped
   | wakeupDropped                -- a sync caller drops its condition variable
-  | beg (op : Nat) | end_ (op : Nat)
+  | beg (op : Nat) | end_ (op : Nat) | cancel (op : Nat) | free (q : Nat)
   | ret (op : Nat) (r : Nat)
   deriving DecidableEq, Repr, Hashable, Inhabited
 
@@ -274,6 +326,7 @@ def State.setJob (s : State) (j : Nat) (v : Job) : State := { s with jobs := s.j
 def State.setFut (s : State) (f : Nat) (v : Fut) : State := { s with futs := s.futs.set f v }
 def State.setGate (s : State) (g : Nat) (v : Gate) : State := { s with gates := s.gates.set g v }
 def State.setAct (s : State) (a : Nat) (v : Act) : State := { s with acts := s.acts.set a v }
+def State.setSf (s : State) (u : Nat) (v : SyncFut) : State := { s with sfs := s.sfs.set u v }
 def State.setPThr (s : State) (p : Nat) (v : PThr) : State := { s with pthreads := s.pthreads.set p v }
 def State.setHolder (s : State) (q : Nat) (h : Option Nat) : State := { s with holder := s.holder.set q h }
 
@@ -287,7 +340,7 @@ def initState (nq : Nat) (ngates : Nat) (max : Nat) : State :=
   { qs := List.replicate nq { state := .idle, jobs := [], waiters := [] }
     jobs := [], futs := [], gates := List.replicate ngates { isOpen := false, waiting := [] }
     latches := [], doubles := [], pthreads := [], threadsVec := [], threadsLock := none
-    schedule := [], schedLock := none, maxThreads := max, readyLock := [], ready := [], opFut := [], parkToken := [], taskWoken := []
+    schedule := [], schedLock := none, maxThreads := max, readyLock := [], ready := [], opFut := [], opSf := [], sfs := [], dropped := [], parkToken := [], taskWoken := []
     acts := [], nextOp := 0, holder := List.replicate nq none }
 
 end Desync
